@@ -396,8 +396,9 @@ func MapRanges(p *load.Program, run *report.Run, roots []*ssa.Function, frozen m
 				}
 				w := globalWrites(p, callee)
 				w = append(w, receiverFieldStores(p, callee)...)
+				w = append(w, lenNumbering(p, callee)...)
 				if len(w) > 0 {
-					run.Violate(rule, key, pos, "frozen verdict no longer holds: callee chain writes package-level state or appends to a field of its receiver", w)
+					run.Violate(rule, key, pos, "frozen verdict no longer holds: callee chain writes package-level state, appends to a field of its receiver or numbers map entries by insertion order", w)
 				} else {
 					run.OK(rule, key, pos, "frozen: "+fz.Reason)
 				}
@@ -440,6 +441,73 @@ func receiverFieldStores(p *load.Program, f *ssa.Function) []string {
 	}
 	sort.Strings(out)
 	return out
+}
+
+// lenNumbering lists map updates m[k] = f(len(m)) in functions reachable from f: the
+// value an entry gets is its insertion rank, so it records the order of the calls.
+func lenNumbering(p *load.Program, f *ssa.Function) []string {
+	var out []string
+	for fn := range p.ModuleReach(f) {
+		if !inScope(fn) {
+			continue
+		}
+		for _, b := range fn.Blocks {
+			for _, ins := range b.Instrs {
+				mu, ok := ins.(*ssa.MapUpdate)
+				if !ok {
+					continue
+				}
+				if derivesFromLenOf(mu.Value, mu.Map, 0) {
+					out = append(out, fn.RelString(nil)+" numbers the entries of a map by insertion order at "+p.Rel(mu.Pos()))
+				}
+			}
+		}
+	}
+	sort.Strings(out)
+	return out
+}
+
+func derivesFromLenOf(v, m ssa.Value, depth int) bool {
+	if depth > 4 {
+		return false
+	}
+	switch t := v.(type) {
+	case *ssa.Call:
+		if b, ok := t.Call.Value.(*ssa.Builtin); ok && b.Name() == "len" && len(t.Call.Args) == 1 {
+			return sameMapValue(t.Call.Args[0], m)
+		}
+	case *ssa.Convert:
+		return derivesFromLenOf(t.X, m, depth+1)
+	case *ssa.BinOp:
+		return derivesFromLenOf(t.X, m, depth+1) || derivesFromLenOf(t.Y, m, depth+1)
+	case *ssa.Phi:
+		for _, e := range t.Edges {
+			if derivesFromLenOf(e, m, depth+1) {
+				return true
+			}
+		}
+	case *ssa.MakeInterface:
+		return derivesFromLenOf(t.X, m, depth+1)
+	}
+	return false
+}
+
+// sameMapValue: the two values are loads of the same field/variable (or the same SSA value).
+func sameMapValue(a, b ssa.Value) bool {
+	if a == b {
+		return true
+	}
+	la, ok1 := a.(*ssa.UnOp)
+	lb, ok2 := b.(*ssa.UnOp)
+	if !ok1 || !ok2 {
+		return false
+	}
+	fa, ok1 := la.X.(*ssa.FieldAddr)
+	fb, ok2 := lb.X.(*ssa.FieldAddr)
+	if ok1 && ok2 {
+		return fa.Field == fb.Field && (fa.X == fb.X || sameMapValue(fa.X, fb.X))
+	}
+	return la.X == lb.X
 }
 
 func isAppend(v ssa.Value) bool {
